@@ -117,6 +117,7 @@ func solve(fset *token.FileSet, out types.Type, given *types.Tuple, set *Provide
 	stk := []frame{{t: out}}
 dfs:
 	for len(stk) > 0 {
+		verifTick("solve")
 		curr := stk[len(stk)-1]
 		stk = stk[:len(stk)-1]
 		if index.At(curr.t) != nil {
@@ -445,6 +446,7 @@ func verifyAcyclic(providerMap *typeutil.Map, hasher typeutil.Hasher) []error {
 		// Depth-first search using a stack of trails through the provider map.
 		stk := [][]types.Type{{root}}
 		for len(stk) > 0 {
+			verifTick("acyclic")
 			curr := stk[len(stk)-1]
 			stk = stk[:len(stk)-1]
 			head := curr[len(curr)-1]
